@@ -12,6 +12,13 @@
    - fuel irrelevance for EVERY tree, expression, Env and resolver: an outcome obtained with some
      fuel is the outcome with every larger fuel (c08_fuel_is_irrelevant, also for Unpack into
      interface{}), so the model's answers are those of the unbounded evaluator;
+   - the specification evaluator SpecEval.v (what the property states: a reference is cyclic when
+     it is re-entered while it is still being evaluated - a stack of names passed down and never
+     handed back) has these properties by construction, stated as theorems: a name on the stack
+     is cyclic where it is met again, a variable used twice in one string is evaluated twice
+     under the same stack, its fuel is irrelevant, and it terminates on the reference fragment;
+     it judges the implementation's results in the correspondence run (CorrC02.spec_read_ok,
+     spec_typed, spec_unpack_root);
    - for every recursive evaluator dv, hence at every fuel: a reference re-entered while it is
      being evaluated is reported as cyclic AT THAT POINT without any further evaluation, a
      resolver knowing the name absorbs the error, and the names registered while one piece of an
@@ -22,7 +29,7 @@
    harness reports a read of the implementation that does not return (XHang / crash replay) as
    a violation. *)
 From Ucfg Require Import Base ParseInt Consts Field Tree PathOps Merge OTree F64 ParseValue VarParse
-     Normalize Flags Ops VarEval ProofsVarEval ProofsFuel ProofsTerm.
+     Normalize Flags Ops VarEval SpecEval ProofsVarEval ProofsFuel ProofsTerm ProofsSpec ProofsSpecTerm.
 
 Theorem c08_plain_references_terminate : forall o own names fuel name idx,
   eo_res o = [] -> forallb (refs_only (eo_ftext o) names) (own :: eo_envs o) = true ->
@@ -63,6 +70,44 @@ Theorem c08_termination_example :
   read_string o 9 root "x" (-1) = Ok "env2".
 Proof. exact termination_example. Qed.
 Print Assumptions c08_termination_example.
+
+(** the specification evaluator (SpecEval.v: a stack of the names being evaluated) *)
+Theorem c08_spec_reentry_is_cyclic : forall o dv root st p sep,
+  on_stack (path_str p sep) st = true -> resolve_env o (path_str p sep) = None ->
+  ref_eval_s o dv root st p sep = Err ECyclic "" /\
+  dyn_step_s o dv root st "" (VRef p sep) = Err ECyclic "".
+Proof. exact spec_reentry_is_cyclic. Qed.
+Print Assumptions c08_spec_reentry_is_cyclic.
+
+Theorem c08_spec_repeated_use_is_no_cycle : forall o dv x root st,
+  exp_s o dv (ESplice [x; x]) root st
+  = match exp_s o dv x root st with
+    | Ok (s, m) => Ok ((s +++ s)%string, m || m)
+    | Err e p => Err e p
+    | Panic => Panic
+    | OutOfModel => OutOfModel
+    end.
+Proof. exact spec_repeated_use. Qed.
+Print Assumptions c08_spec_repeated_use_is_no_cycle.
+
+Theorem c08_spec_fuel_is_irrelevant : forall o f f' root name idx r, (f <= f')%nat ->
+  spec_string o f root name idx = r -> r <> OutOfModel -> spec_string o f' root name idx = r.
+Proof. exact spec_string_fuel. Qed.
+Print Assumptions c08_spec_fuel_is_irrelevant.
+
+Theorem c08_spec_plain_references_terminate : forall o own names fuel name idx,
+  eo_res o = [] -> forallb (refs_only (eo_ftext o) names) (own :: eo_envs o) = true ->
+  (List.length names < fuel)%nat -> spec_string o fuel own name idx <> OutOfModel.
+Proof. exact spec_plain_references_terminate. Qed.
+Print Assumptions c08_spec_plain_references_terminate.
+
+Theorem c08_spec_examples :
+  spec_string demo_opts 60 demo_root "twice" (-1) = Ok ("x-x", false)
+  /\ spec_string demo_opts 60 demo_root "diamond" (-1) = Ok ("x1x2", false)
+  /\ spec_string demo_opts 60 demo_root "self" (-1) = Err ECyclic ""
+  /\ spec_string demo_opts 60 demo_root "saved" (-1) = Ok ("dflt", true).
+Proof. exact spec_examples. Qed.
+Print Assumptions c08_spec_examples.
 
 Theorem c08_reentered_reference_is_cyclic_partial : forall o dv fuel0 root a p sep,
   act_has (path_str p sep) a = true -> resolve_ref o dv fuel0 root a p sep = (RCyclic, a).
